@@ -153,6 +153,26 @@ def r19_2(ctx):
                 ctx.bad("R19.2", fi.module, fi.qual, norm(pushes[0]), "relayed data is modified between read and push", pushes[0].lineno)
         else:
             ctx.bad("R19.2", fi.module, fi.qual, "push(msg)", "relay no longer pushes exactly what it read", fi.node.lineno)
+        # nothing that was read is dropped: from the read, the only way round the loop or out of it that does not pass the
+        # push is the one on which the chunk is empty
+        if pushes and all(len(c.args) == 1 and isinstance(c.args[0], ast.Name) for c in pushes):
+            from .. import flow
+            v = pushes[0].args[0].id
+            g = ctx.cfg(fi)
+            rd = [n.id for n in g.nodes if n.ast is not None and n.kind == "stmt" and isinstance(n.ast, ast.Assign) and norm(n.ast.targets[0]) == v and any(x in reads for x in calls_in(n.ast))]
+            pn = {n.id for n in g.nodes if n.ast is not None and n.kind == "stmt" and any(c in pushes for c in calls_in(n.ast))}
+            loops = [w for w in ast.walk(fi.node) if isinstance(w, ast.While)]
+            heads = {n.id for n in g.nodes if n.kind == "test" and any(n.ast is w.test for w in loops)}
+            ctx.require(rd and pn and heads, f"{key}: read / push / loop of the relay not found")
+            hit = flow.feasible_paths_exist(
+                g, rd[0], heads | {g.exit}, lambda e: "chunk" if isinstance(e, ast.Name) and e.id == v else None,
+                labels=flow.NORMAL, avoid=lambda n: n in pn, accept=lambda n, f: f.get("chunk") is not False,
+            )
+            ctx.paths_explored += 1
+            if hit:
+                ctx.bad("R19.2", fi.module, fi.qual, f"{v} read but not pushed", "the relay can go round its loop or leave it with a non-empty chunk it has read and not pushed: the tail of a response (the end of a literal, the tagged reply, BYE) is dropped", g.nodes[hit[0][-1]].line, flow.fmt_path(g, hit[0]))
+            else:
+                ctx.ok("R19.2", where(fi), "every non-empty chunk read is pushed before the next read / the end of the relay")
 
 
 def _regex_src(p, mod):
